@@ -166,7 +166,7 @@ pub fn gen_footer(rng: &mut Rng, v3: bool) -> (String, PosixTz) {
             match rng.below(6) {
                 0 | 1 => 7200,
                 2 => *rng.pick(&[0, 3600, 10_800, 86_400, 1800]),
-                3 if v3 => *rng.pick(&[-3600, -7200, 93_600, 26 * 3600, -24 * 3600, 100 * 3600, -100 * 3600]),
+                3 if v3 => *rng.pick(&[-3600, -7200, 93_600, 26 * 3600, -24 * 3600, 100 * 3600, -100 * 3600, -1800, -900, -59, -1, -5400, -3_661, 25 * 3600 + 1800]),
                 4 => rng.below(86_400) as i32,
                 _ => rng.range_i64(0, 24) as i32 * 3600,
             }
